@@ -31,12 +31,14 @@ type PlatformLevel struct {
 	PceSvn uint16
 	Tdx    [16]byte
 	Status string
+	Date   string // tcbDate; "" = a fixed default
 }
 
 // ModuleLevel is one entry of a TDX module identity's tcbLevels.
 type ModuleLevel struct {
 	Isvsvn uint32
 	Status string
+	Date   string
 }
 
 // ModuleIdentity is one entry of tcbInfo.tdxModuleIdentities.
@@ -103,7 +105,7 @@ func (d *TcbInfoDoc) Render() []byte {
 			if j > 0 {
 				sb.WriteString(",")
 			}
-			fmt.Fprintf(&sb, `{"tcb":{"isvsvn":%d},"tcbDate":"2024-03-13T00:00:00Z","tcbStatus":%q}`, l.Isvsvn, l.Status)
+			fmt.Fprintf(&sb, `{"tcb":{"isvsvn":%d},"tcbDate":%q,"tcbStatus":%q}`, l.Isvsvn, dateOr(l.Date), l.Status)
 		}
 		sb.WriteString("]}")
 	}
@@ -112,8 +114,8 @@ func (d *TcbInfoDoc) Render() []byte {
 		if i > 0 {
 			sb.WriteString(",")
 		}
-		fmt.Fprintf(&sb, `{"tcb":{"sgxtcbcomponents":%s,"pcesvn":%d,"tdxtcbcomponents":%s},"tcbDate":"2024-03-13T00:00:00Z","tcbStatus":%q}`,
-			comps(l.Sgx), l.PceSvn, comps(l.Tdx), l.Status)
+		fmt.Fprintf(&sb, `{"tcb":{"sgxtcbcomponents":%s,"pcesvn":%d,"tdxtcbcomponents":%s},"tcbDate":%q,"tcbStatus":%q}`,
+			comps(l.Sgx), l.PceSvn, comps(l.Tdx), dateOr(l.Date), l.Status)
 	}
 	sb.WriteString("]}")
 	return []byte(sb.String())
@@ -123,7 +125,19 @@ func (d *TcbInfoDoc) Render() []byte {
 type QeLevel struct {
 	Isvsvn uint32
 	Status string
+	Date   string
 }
+
+func dateOr(d string) string {
+	if d == "" {
+		return "2024-03-13T00:00:00Z"
+	}
+	return d
+}
+
+// LevelDates are tcbDate values in deliberately non-monotonic order (the order of the level list,
+// not the dates, decides which level is selected).
+var LevelDates = []string{"2022-11-09T00:00:00Z", "2024-03-13T00:00:00Z", "2023-08-09T00:00:00Z", "2021-01-01T00:00:00Z", "2025-05-14T00:00:00Z", ""}
 
 // QeIdentityDoc describes a QE Identity document.
 type QeIdentityDoc struct {
@@ -159,7 +173,7 @@ func (d *QeIdentityDoc) Render() []byte {
 		if i > 0 {
 			sb.WriteString(",")
 		}
-		fmt.Fprintf(&sb, `{"tcb":{"isvsvn":%d},"tcbDate":"2024-03-13T00:00:00Z","tcbStatus":%q}`, l.Isvsvn, l.Status)
+		fmt.Fprintf(&sb, `{"tcb":{"isvsvn":%d},"tcbDate":%q,"tcbStatus":%q}`, l.Isvsvn, dateOr(l.Date), l.Status)
 	}
 	sb.WriteString("]}")
 	return []byte(sb.String())
